@@ -42,7 +42,16 @@ MANIFEST = dict(
         "part in an improving step: for the equality-constrained kind every feasible sum-preserving two-variable move involving "
         "it (any active partner, curvature >= 0) strictly decreases the dual objective (exact, second order); for the box kind "
         "every feasible move of it has strictly negative first-order effect and moving it alone strictly decreases the objective "
-        "(K_aa >= 0). (5) select_valid: whenever a selection criterion (MVP / LibSVM second order / maximum gain) reports a positive "
+        "(K_aa >= 0). shrink_final_sound: the same read off the FINAL state of shrink(eps), the form the harness oracle checks on the real "
+        "code: with m = size of the start set of the call (shrinkStart_size: all n variables exactly when the call un-shrinks "
+        "first -- m_isUnshrinked false and KKT gap of the active variables < 10 eps --, the active ones otherwise), every variable "
+        "of the start set carries its true gradient lin - K alpha, box and flags in the final state (the re-activated and the "
+        "removed ones too), and a removed variable has no feasible first-order ascending move: equality-constrained kind -- with "
+        "ANY other variable of the start set, still active or removed by the same call (PairNoAscent, strict); box kind -- on its "
+        "own (SingleNoAscent). shrink_unshrink_branch_witness: a reachable state with two shrunk variables, one of which has "
+        "become a KKT violator; shrink(1/1000) un-shrinks and, with the thresholds recomputed over all variables, removes "
+        "nothing, whereas the thresholds of the formerly active variables alone (seeded defect stale-active-count) remove a "
+        "variable that forms a feasible ascending pair with the violator. (5) select_valid: whenever a selection criterion (MVP / LibSVM second order / maximum gain) reports a positive "
         "violation the working set it returns is admissible for updateSMO (indices active; g_i >= g_j for MVP/LibSVM; MVP needs "
         "the gradients inside the sentinel range [-1e100,1e100]). (6) The solver's own runs: solveIter_inv_box / solve_inv_box -- "
         "for the box-constrained problem with maximum-gain selection and eps > 0 EVERY run of the model of QpSolver::solve (any "
@@ -54,7 +63,24 @@ MANIFEST = dict(
         "prefixes, with the real classes driven through QpSolver::solve (MVP / LibSVM / maximum-gain selection) and through "
         "adversarial op sequences (double/float entries, CachedMatrix with minimal and larger caches) under ASan/UBSan; an "
         "independent oracle re-derives lin - K*alpha and checks every clause of the property (incl. objective monotonicity, sum "
-        "preservation and soundness of shrinking) after every operation."),
+        "preservation and soundness of shrinking) after every operation -- after every updateSMO/shrink/unshrink the real "
+        "QpSolver::solve performs as well (the state before each such call is snapshotted inside the shadowing subclass). "
+        "Shrinking oracle (independent of the implementation's thresholds; own gradient of ALL variables in long double from "
+        "the oracle's copy of the data, exact in exact mode, 1e-9 relative otherwise): after EVERY real shrink(), for both "
+        "SvmShrinkingProblem and BoxConstrainedShrinkingProblem, no variable removed by this call (start set minus active "
+        "set; start set = all variables when the call un-shrank, detected through the m_isUnshrinked hook or the oracle's "
+        "own mirror of it) has a feasible ascending partner in the start set (box kind: ascends on its own). "
+        "Histories: besides uniformly random op sequences the generator builds, on every run and in both tiers, the "
+        "histories the shrinking clause needs -- noisy two-class / regression problems with bounded support vectors, "
+        "duplicated and leverage points (linear / polynomial / dyadic Gaussian kernel, cold and bound-heavy warm starts); "
+        "shrink with a tiny eps early, solver-selected (new op ssmo: real selection criterion + updateSMO, no schedule) and "
+        "arbitrary admissible steps on the reduced problem, then the ONE call whose internal un-shrink fires (directly and "
+        "from inside QpSolver::solve), re-shrinking, later calls with the flag set, dense shrinking schedules, and "
+        "constructively planted wrong guesses (movers / leverage victims / bystanders). The harness measures on the real "
+        "objects how often a shrink() un-shrank with a re-activated KKT violator such that the thresholds of the formerly "
+        "active variables alone would remove a different set (reached[...] in the evidence; typically 70-90 per quick run, "
+        "both kinds, 10-30 of them inside QpSolver::solve); the check reports a broken coverage obligation when this falls "
+        "below a floor (10 svm / 5 box / 3 in-solve)."),
   note=TRUST + "NOT proved, covered by the exact/bit-for-bit correspondence and the oracle only: solver runs with the MVP selection "
        "criterion (select_valid covers its direct selections, not its re-selection), runs of the equality-constrained solver "
        "whose gradients leave the sentinel range (-1e100,1e100); for the box kind a JOINT "
@@ -62,18 +88,24 @@ MANIFEST = dict(
        "box step inside the guard region 0 < K_ii < 1e-12 is false for the code as it is (documented guard; witness theorems). "
        "The proofs about the 2-D box solver are about the definition regenerated from the current source (they fail, and the "
        "check reports a broken obligation, if the function changes shape). "
-       "Rounding: theorems are about exact arithmetic. HMG working-set selection, deactivateVariable/scaleBoxConstraints/setLinear are not modelled; "
+       "Rounding: theorems are about exact arithmetic. HMG working-set selection is not modelled in Lean: the same histories are "
+       "run with `solve hmg` against the implementation alone (uncached matrix and 2-row cache, so that the genuine HMG branch "
+       "and not its small-problem LibSVM fallback is taken) and every clause is checked by the independent oracle after every "
+       "step/shrink/unshrink (K-C08[hmg]; open finding F-C08-HMG1: out-of-range read for one-variable problems). "
+       "deactivateVariable/scaleBoxConstraints/setLinear are not modelled; "
        "termination is not claimed.",
   technique="Lean 4 invariant proof by induction over operation sequences + T0 translation of the analytic kernels + "
             "differential correspondence with the C++ (exact / bit-for-bit, ASan/UBSan)",
   design="§6 C08")
 
 FINISH = dict(level="proof",
-              rule="problems: n in 1..12, K = X X^T (+ dyadic ridge, * 2^s) with small-integer X (PSD, often singular), "
-                   "C-SVM style and general boxes, cold and warm starts; op sequences mix real QpSolver::solve bursts "
-                   "(MVP / LibSVM / maximum-gain selection) with adversarial asmo/shrink/unshrink/aflip; analytic cases: "
-                   "random dyadic and tiny/degenerate 2-D problems. non-trivial = at least one state-changing step and "
-                   "one shrink or flip; distinct = distinct op text")
+              rule="problems: n in 1..12 (random family), 5..32 (shrink-history families), K = X X^T (+ dyadic ridge, * 2^s) with "
+                   "small-integer X (PSD, often singular), polynomial and dyadic Gaussian kernels, duplicated and leverage points, "
+                   "C-SVM style, regression style and general boxes, cold and warm starts; op sequences mix real QpSolver::solve "
+                   "bursts (MVP / LibSVM / maximum-gain selection) with solver-selected single steps (ssmo) and adversarial "
+                   "asmo/shrink/unshrink/aflip; families random / planted / history / converge / schedule (see gen_*_case); "
+                   "analytic cases: random dyadic and tiny/degenerate 2-D problems. non-trivial = at least one state-changing "
+                   "step and one shrink or flip; distinct = distinct op text")
 
 LAKE_TARGETS = ["SharkVerif.Props.C08", "drv_c08"]
 PID = "C08"
@@ -112,6 +144,11 @@ def gen_matrix(r, n, style):
         K[i][i] += ridge
     scale = {"tiny": 2.0 ** -r.range(18, 30), "big": 2.0 ** r.range(3, 8)}.get(style, r.choice([1.0, 1.0, 1.0, 0.5, 2.0, 0.25]))
     return [[K[i][j] * scale for j in range(n)] for i in range(n)]
+
+
+def f32exact(x):
+    import struct
+    return struct.unpack("f", struct.pack("f", x))[0] == x
 
 
 def dyadic(r, lo, hi, bits=2):
@@ -181,6 +218,210 @@ def gen_case(r, quick, edge):
     return ops, p
 
 
+# ---- shrink histories --------------------------------------------------------------------------
+# The clause "variables removed by shrinking are only ones that cannot improve the objective at that
+# moment" quantifies over every shrink() of every history, in particular over the ONE call per
+# problem object whose internal un-shrink fires (m_isUnshrinked false, KKT gap of the active
+# sub-problem below 10*eps) while earlier calls have removed variables that meanwhile became KKT
+# violators.  Uniformly random short op sequences on tiny problems practically never get there, so
+# this family builds such histories on purpose: noisy two-class problems with many bounded support
+# vectors (small C, overlapping classes, duplicated points, label noise), early shrinking with a
+# tiny eps (no un-shrink), further steps that move the gradients of the shrunk variables, then a
+# shrink with a large eps (un-shrink + immediate re-shrink), then more of the same and a full run.
+# The harness measures on the real objects how often the decisive situation was reached
+# (reached[...] in the evidence); run() requires it on every run.
+def gen_noisy_problem(r, quick, kind=None, nrange=None):
+    kind = kind or r.choice(["svm", "svm", "box"])
+    n = r.range(*nrange) if nrange else r.range(5, 14) if quick else r.range(5, 28)
+    d = r.range(1, 2)
+    y = [1.0 if r.chance(1, 2) else -1.0 for _ in range(n)]
+    sep = r.choice([0, 1, 1, 2])
+    X = [[r.range(-2, 2) + (sep if (y[i] > 0) != r.chance(1, 5) else -sep) * (1 if k == 0 else 0) for k in range(d)]
+         for i in range(n)]
+    # leverage points: scaled copies of other points -- their gradients move `s` times as fast as the gradients of
+    # the points that take the steps, so a shrink() decision about them is overtaken by the next few steps
+    lev = 0
+    X0 = [list(x) for x in X]
+    if r.chance(3, 4):
+        lev = r.range(1, max(1, n // 3))
+        for _ in range(lev):
+            src, dst = r.below(n), r.below(n)
+            sc = r.choice([-8, -4, -3, 3, 4, 8])
+            X[dst] = [sc * v for v in X0[src]]
+    kern = r.choice(["linear", "linear", "linear", "rbf", "poly"]) if lev else r.choice(["linear", "rbf", "rbf", "poly"])
+    def k(a, b):
+        ip = sum(u * v for u, v in zip(a, b))
+        if kern == "linear": return float(ip)
+        if kern == "poly": return float((ip + 1) ** 2)
+        return 2.0 ** -sum((u - v) ** 2 for u, v in zip(a, b))       # Gaussian kernel with gamma = ln 2: dyadic, PSD
+    ridge = r.choice([0.0, 0.0, 0.0, 0.25, 1.0])
+    if lev and kern == "rbf":       # scaled copies would underflow the Gaussian kernel: leverage in feature space instead
+        X, lev = X0, 0
+    K = [[k(X[i], X[j]) + (ridge if i == j else 0.0) for j in range(n)] for i in range(n)]
+    if not all(f32exact(v) for row in K for v in row):     # the float-cache variants need entries that are exact floats
+        kern = "linear"
+        K = [[k(X[i], X[j]) + (ridge if i == j else 0.0) for j in range(n)] for i in range(n)]
+    assert all(f32exact(v) for row in K for v in row)
+    C = r.choice([0.125, 0.25, 0.5, 1.0, 1.0, 2.0, 4.0])
+    lin, L, U = [], [], []
+    style = r.choice(["csvm", "csvm", "csvm", "regression"])
+    for i in range(n):
+        if style == "csvm":
+            w = r.choice([1.0, 1.0, 1.0, 0.5, 2.0])
+            lin.append(y[i]); L.append(0.0 if y[i] > 0 else -C * w); U.append(C * w if y[i] > 0 else 0.0)
+        else:    # epsilon-regression-like: symmetric boxes, targets on a grid
+            lin.append(dyadic(r, -2, 2)); L.append(-C); U.append(C)
+    # warm start far from the optimum, mostly at the bounds: the first shrink() calls guess on a state whose gradients
+    # still move a lot, so that removed variables DO become violators later (what happens on large noisy problems)
+    warm = r.chance(2, 3)
+    a0 = [0.0] * n
+    if warm:
+        for i in range(n):
+            c = r.below(6)
+            a0[i] = L[i] if c < 2 else U[i] if c < 4 else 0.0 if c == 4 else L[i] + (U[i] - L[i]) * r.choice([0.25, 0.5, 0.75])
+    return dict(kind=kind, n=n, shrink=1, K=K, lin=lin, L=L, U=U, a0=a0, style="noisy-" + kern + ("-lev" if lev else ""), box=style, warm=warm)
+
+
+def gen_history_case(r, quick, edge):
+    """adversarial history: early shrinking with a tiny eps, steps, then the shrink whose internal un-shrink fires"""
+    p = gen_noisy_problem(r, quick)
+    strategies = ["mvp", "libsvm"] if p["kind"] == "svm" else ["maxgain"]
+    tiny, big = 2.0 ** -30, r.choice([4.0, 64.0, 1024.0])
+    ops = [new_line(p, edge)]
+    selmix = r.choice([2, 5, 8])        # share of solver-selected steps (out of 10), the rest are arbitrary admissible pairs
+    def steps(lo, hi, bursts=True):
+        for _ in range(r.range(lo, hi)):
+            x = r.below(10)
+            if x < selmix: ops.append(f"ssmo {r.choice(strategies)}")
+            elif x < 9 or not bursts: ops.append(f"asmo {r.below(64)} {r.below(64)}")
+            else: ops.append(f"aflip {r.below(64)} {r.below(64)}")
+    steps(2, 8)
+    for _ in range(r.range(1, 3)):          # early shrinking without un-shrink, then the active problem moves on
+        ops.append(f"shrink {tok(tiny)}")
+        steps(3, 16)
+    shape = r.below(10)
+    if shape < 6:
+        ops.append(f"shrink {tok(big)}")                                   # gap < 10*big: the one automatic un-shrink
+    elif shape < 8:
+        ops.append(f"solve {r.choice(strategies)} {tok(big / 8)} {r.range(1, 3)}")   # the same from inside QpSolver::solve
+    else:
+        ops.append("unshrink"); ops.append(f"shrink {tok(tiny)}")       # explicit un-shrink, flag set, shrink again
+    steps(1, 6)
+    ops.append(f"shrink {tok(r.choice([tiny, big]))}")                    # flag already set: no second un-shrink
+    steps(0, 4)
+    if r.chance(2, 3):
+        ops.append(f"solve {r.choice(strategies)} {tok(r.choice([2.0 ** -10, 2.0 ** -3, 1e-3]))} {300 if quick else 3000}")
+    return ops, p
+
+
+def gen_converge_case(r, quick, edge, nlo=6, nhi=16, m=(10, 50)):
+    """early guesses far from the optimum, then the active sub-problem is (nearly) solved, then the shrink whose
+    internal un-shrink fires -- called directly or from inside QpSolver::solve (a solver object is created per
+    `solve` op, so its shrinking schedule starts over: step, shrink(eps), steps)"""
+    p = gen_noisy_problem(r, quick, nrange=(nlo, nhi) if quick else (nlo, 2 * nhi))
+    strat = r.choice(["mvp", "libsvm"]) if p["kind"] == "svm" else "maxgain"
+    tiny = 2.0 ** -30
+    ops = [new_line(p, edge)]
+    def step():
+        return f"ssmo {strat}" if not r.chance(1, 8) else f"asmo {r.below(64)} {r.below(64)}"
+    for _ in range(r.range(1, 2)):
+        for _ in range(r.range(0, 5)):
+            ops.append(step())
+        ops.append(f"shrink {tok(tiny)}" if r.chance(2, 3) else f"solve {strat} {tok(tiny)} {r.range(1, 3)}")
+    for _ in range(r.range(*m)):
+        ops.append(step())
+    eps = 2.0 ** -r.range(0, 8)
+    ops.append(f"shrink {tok(eps)}" if r.chance(1, 2) else f"solve {strat} {tok(eps)} {r.range(1, 4)}")
+    for _ in range(r.range(0, 6)):
+        ops.append(step())
+    ops.append(f"shrink {tok(r.choice([tiny, eps]))}")
+    if r.chance(1, 2):
+        ops.append(f"solve {strat} {tok(r.choice([2.0 ** -10, 2.0 ** -3, 1e-3]))} {300 if quick else 3000}")
+    return ops, p
+
+
+def gen_planted_case(r, quick, edge):
+    """planted wrong guesses (constructive, then randomised): linear kernel on two features.
+    movers     (+-1, 0): the only violating pairs at the cold start; solving them moves w = sum x_b alpha_b to (w1, 0);
+    victims    (-+t, 0), t >= 2, at a bound with a gradient just beyond the cold-start thresholds (shrunk by the first
+               shrink()), which the movers' steps push far to the other side (lin + t*w1): KKT violators while shrunk;
+    bystanders (0, u) at a bound, gradients spread between the cold-start thresholds and the victims' final gradients:
+               also shrunk at the start; after the un-shrink the victims' gradients are the thresholds that decide
+               whether a bystander may be removed again;
+    fillers    free or bounded variables with small gradients (random; they perturb the plan).
+    Then: shrink(tiny) at (or right after) the cold start, solver-selected steps until the active sub-problem is
+    (nearly) solved, shrink(eps) / solve(eps) -> the one automatic un-shrink with wrongly shrunk variables present."""
+    kind = r.choice(["svm", "svm", "box"])
+    strat = r.choice(["mvp", "libsvm"]) if kind == "svm" else "maxgain"
+    B = r.choice([0.25, 1.0, 4.0, 16.0])
+    w1 = min(2 * B, 1.0)
+    pts = []      # (x, lin, L, U)
+    for _ in range(r.range(1, 2)):
+        pts.append(((1.0, 0.0), 1.0, 0.0, B)); pts.append(((-1.0, 0.0), -1.0, -B, 0.0))
+    top = 0.0
+    for _ in range(r.range(1, 3)):              # victims
+        t = r.choice([2.0, 4.0, 8.0]); dl = r.choice([0.25, 0.5, 1.0, 2.0]); W = r.choice([0.5, 1.0, 4.0])
+        if r.chance(1, 2):   # at its lower bound, shrunk because g = -1-dl < smallestDown; ends at -1-dl+t*w1
+            pts.append(((-t, 0.0), -1.0 - dl, 0.0, W)); top = max(top, -1.0 - dl + t * w1)
+        else:                # at its upper bound, shrunk because g = 1+dl > largestUp; ends at 1+dl-t*w1
+            pts.append(((t, 0.0), 1.0 + dl, -W, 0.0)); top = max(top, -(1.0 + dl - t * w1))
+    span = int(max(top, 1.0) * 4) + 4
+    for _ in range(r.range(2, 6)):              # bystanders
+        u = r.choice([0.0, 0.0, 1.0, -1.0]); W = r.choice([0.5, 1.0, 4.0])
+        gc = 1.0 + r.range(1, span) / 4.0
+        if r.chance(1, 2): pts.append(((0.0, u), gc, -W, 0.0))       # at its upper bound, g > largestUp
+        else: pts.append(((0.0, u), -gc, 0.0, W))                     # at its lower bound, g < smallestDown
+    for _ in range(r.range(0, 3)):              # fillers
+        u = r.choice([1.0, -1.0, 2.0]); W = r.choice([0.5, 1.0, 4.0])
+        c = r.below(3)
+        pts.append(((0.0, u), dyadic(r, -1, 1), (-W, 0.0, -W)[c], (W, W, 0.0)[c]))
+    order = list(range(len(pts)))
+    for k in range(len(order) - 1, 0, -1):      # Fisher-Yates with the check's generator
+        j = r.below(k + 1); order[k], order[j] = order[j], order[k]
+    pts = [pts[k] for k in order]
+    n = len(pts)
+    ridge = r.choice([0.0, 0.0, 0.0, 0.25])
+    K = [[pts[i][0][0] * pts[j][0][0] + pts[i][0][1] * pts[j][0][1] + (ridge if i == j else 0.0) for j in range(n)] for i in range(n)]
+    p = dict(kind=kind, n=n, shrink=1, K=K, lin=[q[1] for q in pts], L=[q[2] for q in pts], U=[q[3] for q in pts],
+             a0=[0.0] * n, style="planted", box="planted", warm=False)
+    tiny = 2.0 ** -30
+    ops = [new_line(p, edge)]
+    if r.chance(1, 4): ops.append(f"ssmo {strat}")
+    ops.append(f"shrink {tok(tiny)}" if r.chance(3, 4) else f"solve {strat} {tok(tiny)} 1")
+    eps = r.choice([2.0 ** -4, 0.25, 1.0, 4.0])
+    direct = r.chance(1, 2)
+    # directly: steps, then shrink(eps); from inside the solver: QpSolver::solve does step, shrink(eps), steps
+    for _ in range(r.range(1, 8) if direct else r.range(0, 2)):
+        ops.append(f"ssmo {strat}" if not r.chance(1, 10) else f"asmo {r.below(64)} {r.below(64)}")
+    ops.append(f"shrink {tok(eps)}" if direct else f"solve {strat} {tok(eps)} {r.range(1, 4)}")
+    for _ in range(r.range(0, 5)):
+        ops.append(f"ssmo {strat}")
+    ops.append(f"shrink {tok(r.choice([tiny, eps]))}")
+    if r.chance(1, 2):
+        ops.append(f"solve {strat} {tok(r.choice([2.0 ** -10, 2.0 ** -3, 1e-3]))} {300 if quick else 3000}")
+    return ops, p
+
+
+def gen_schedule_case(r, quick, edge):
+    """the solver's own loop with a denser shrinking schedule: `period` solver-selected steps, shrink(eps), ... -- the
+    un-shrink fires by itself when the active sub-problem is solved to 10*eps, as in QpSolver::solve on large problems
+    (there every 1000 iterations; the property does not depend on the period)"""
+    p = gen_noisy_problem(r, quick)
+    strat = r.choice(["mvp", "libsvm"]) if p["kind"] == "svm" else "maxgain"
+    eps = r.choice([2.0 ** -3, 2.0 ** -5, 2.0 ** -7, 1e-3])
+    period = r.range(1, 6)
+    ops = [new_line(p, edge)]
+    total = r.range(10, 40 if quick else 150)
+    k = 0
+    while k < total:
+        for _ in range(period):
+            ops.append(f"ssmo {strat}" if not r.chance(1, 8) else f"asmo {r.below(64)} {r.below(64)}"); k += 1
+        ops.append(f"shrink {tok(eps)}")
+    if r.chance(1, 2):
+        ops.append(f"solve {strat} {tok(eps)} {300 if quick else 3000}")
+    return ops, p
+
+
 def gen_analytic(r, count):
     """one case = one line (stateless ops)"""
     out = []
@@ -218,6 +459,7 @@ def gen_analytic(r, count):
 
 # ----------------------------------------------------------------------------- comparison
 INNER_ORACLE = re.compile(r" !oracle [^|;]*?(?= \||$| ;)")
+COVLINE = re.compile(r"C08COV ((?:\S+=\d+ ?)+)")
 SUFFIX = re.compile(r" ;(?:x|q)=([01]) ;fv=(\S+)(.*)$")
 
 
@@ -291,6 +533,11 @@ def correspond(ctx, name, cases, hcmd, dcmd, max_report=4):
     t = time.time()
     all_ops = [l for c in cases for l in c]
     big = run_case(ctx, hcmd, dcmd, all_ops, timeout=1500)
+    m = COVLINE.search(big.stderr)
+    if m:     # coverage measured by the harness on the real objects (see struct Coverage in harness/c08.cpp)
+        for kv in m.group(1).split():
+            k, v = kv.split("=")
+            ctx.hist("reached[" + name.split("[")[1].rstrip("]") + "]", k, int(v))
     ctx.count("traces_validated_against_impl", len(cases))
     ctx.count("ops_compared", len(all_ops))
     ctx.count("lines_exact_mode(no FE_INEXACT so far; Rat model == C++ exactly)", big.exact_lines)
@@ -303,9 +550,14 @@ def correspond(ctx, name, cases, hcmd, dcmd, max_report=4):
         results = list(ex.map(lambda c: run_case(ctx, hcmd, dcmd, c, timeout=300), cases))
     failing = [(c, r) for c, r in zip(cases, results) if not r.ok] or [(all_ops, big)]
     ctx.log(f"{name}: {len(failing)} of {len(cases)} cases FAIL")
-    seen = set()
+    seen, seen0 = set(), set()
+    # failing inputs confirmed by the property oracle / a sanitizer first, short ones first; one minimisation per kind of failure
+    failing.sort(key=lambda cr: (not (cr[1].oracle or cr[1].crash), len(cr[0])))
     for c, r in failing:
         key0 = classify(c, r)[0]
+        if key0 in seen0:
+            continue
+        seen0.add(key0)
         def fails(ops):
             rr = run_case(ctx, hcmd, dcmd, ops, timeout=120)
             return (not rr.ok) and classify(ops, rr)[0] == key0
@@ -328,6 +580,67 @@ def correspond(ctx, name, cases, hcmd, dcmd, max_report=4):
         if len(seen) >= max_report:
             break
     return len(failing)
+
+
+def oracle_alone(ctx, name, cases, hcmd):
+    """implementation + independent oracle only (operations the Lean model does not cover)"""
+    import subprocess, time
+    t = time.time()
+    env = dict(os.environ); env.setdefault("ASAN_OPTIONS", "detect_leaks=0:abort_on_error=0"); env.setdefault("UBSAN_OPTIONS", "print_stacktrace=1")
+    def run(ops):
+        p = subprocess.run(hcmd, input="\n".join(ops) + "\n", capture_output=True, text=True, errors="replace", env=env, timeout=1500)
+        r = Res(); r.impl = p.stdout.splitlines()
+        m = re.search(r"ERROR: AddressSanitizer: (\S+)|runtime error: ([^\n]*)", p.stderr)
+        fr = re.search(r"#\d+ \S+ in (?:\w+ )?shark::(\w+)::(\w+)", p.stderr[m.start():] if m else "")
+        # head of the sanitizer report (error kind + innermost shark frame) first: classify() reads it
+        r.stderr = ((m.group(0) + (f" in shark::{fr.group(1)}::{fr.group(2)}" if fr else "") + "\n") if m else "") + p.stderr[-3000:]
+        r.site = f"{fr.group(1)}::{fr.group(2)}" if fr else "?"
+        r.crash = p.returncode != 0; r.oracle = [l for l in r.impl if "!oracle" in l]
+        r.ok = not (r.crash or r.oracle or any(l == "bad-op" for l in r.impl)); r.kind = "crash" if r.crash else "oracle" if r.oracle else "bad-op"
+        return r
+    # one-variable problems run one process each (a sanitizer abort there must not end the batch: F-C08-HMG1)
+    single = [c for c in cases if c[0].split()[2] == "1"]
+    batch = [c for c in cases if c[0].split()[2] != "1"]
+    big = run([l for c in batch for l in c])
+    ctx.count("oracle_only_cases(hmg)", len(cases))
+    steps = sum(l.count("smo ") for l in big.impl)
+    ctx.count("oracle_only_solver_steps(hmg)", steps)
+    todo = sorted(single, key=len) + ([] if big.ok else sorted(batch, key=len))
+    seen = set()
+    for c in todo:
+        r = run(c)
+        if r.ok:
+            continue
+        def keyof(ops, rr):
+            # narrow key: kind of failure, innermost shark frame of a sanitizer report, problem size class
+            k = "hmg:" + classify(ops, rr)[0]
+            if rr.crash:
+                n = int(ops[0].split()[2]) if ops[0].startswith("new") else 0
+                k += f":{rr.site}:n={'1' if n == 1 else '>1'}"
+            return k
+        key, what = keyof(c, r), classify(c, r)[1]
+        if key in seen:
+            continue
+        seen.add(key)
+        def fails(ops):
+            rr = run(ops)
+            return (not rr.ok) and keyof(ops, rr) == key
+        small = core.shrink_ops(c, fails, keep_prefix=1, max_rounds=40) if len(c) > 2 else c
+        rs = run(small)
+        if rs.ok: small, rs = c, r
+        ctx.violation(key, {"harness_cmd": hcmd, "ops": small, "impl_output": [l[:3000] for l in rs.impl[-4:]],
+                            "oracle": [l[l.index("!oracle"):][:300] for l in rs.oracle[:5]], "crash": rs.crash,
+                            "stderr_tail": rs.stderr[-1500:], "oracle_only": True}, found_input=True, what="HMG selection: " + what)
+        if len(seen) >= 3:
+            break
+    if big.ok and not seen:
+        ctx.log(f"{name}: {len(cases)} cases / {steps} solver steps, oracle silent ({time.time()-t:.1f}s)")
+        return 0
+    if not seen:
+        ctx.violation("hmg:batch-only", {"harness_cmd": hcmd, "ops": [l for c in cases for l in c][:200]}, found_input=False,
+                      what="oracle failure only in the concatenated run")
+    ctx.log(f"{name}: {len(seen)} kinds of oracle failure / sanitizer report (listed known findings included)")
+    return len(seen)
 
 
 # ----------------------------------------------------------------------------- check
@@ -354,7 +667,7 @@ def load_corpus(edge):
 
 def nontrivial(ops):
     ks = [o.split()[0] for o in ops]
-    return any(k in ("solve", "asmo") for k in ks) and any(k in ("shrink", "aflip", "solve") for k in ks) and len(ops) > 3
+    return any(k in ("solve", "asmo", "ssmo") for k in ks) and any(k in ("shrink", "aflip", "solve") for k in ks) and len(ops) > 3
 
 
 def run(ctx):
@@ -384,9 +697,15 @@ def run(ctx):
     corpus = load_corpus(edge)
     ctx.cov["corpus_cases"] = len(corpus)
     cases = []
-    for _ in range(ncase):
-        ops, p = gen_case(r, ctx.quick, edge)
+    nfam = dict(random=ncase, planted=ncase, history=ncase // 3, converge=ncase, schedule=ncase // 4) if ctx.quick else \
+           dict(random=ncase, planted=ncase // 2, history=ncase // 6, converge=ncase // 3, schedule=ncase // 10)
+    gens = dict(random=gen_case, planted=gen_planted_case, history=gen_history_case, converge=gen_converge_case,
+                schedule=gen_schedule_case)
+    for fam in ("random", "planted", "history", "converge", "schedule"):
+      for _ in range(nfam[fam]):
+        ops, p = gens[fam](r, ctx.quick, edge)
         cases.append(ops)
+        ctx.hist("case_family", fam)
         ctx.hist("problem_kind", p["kind"]); ctx.hist("n", p["n"]); ctx.hist("matrix_style", p["style"])
         ctx.hist("box_style", p["box"]); ctx.hist("warm_start", p["warm"]); ctx.hist("shrinking", p["shrink"])
         for o in ops[1:]:
@@ -399,13 +718,35 @@ def run(ctx):
     ctx.cov["distinct_nontrivial"] = len({"\n".join(c) for c in cases if nontrivial(c)})
     ctx.sample({"ops": [o[:160] for o in cases[len(cases) // 2][:8]]})
     # corpus first
-    if corpus:
-        correspond(ctx, "K-C08[corpus]", corpus, [exe, "dd"], [drv])
+    modelled = [c for c in corpus if not any(" hmg " in o for o in c)]       # `solve hmg` is oracle-only (below)
+    if modelled:
+        correspond(ctx, "K-C08[corpus]", modelled, [exe, "dd"], [drv])
     correspond(ctx, "K-C08[analytic]", analytic, [exe, "dd"], [drv])
     variants = [("dd", "2"), ("cf", "2"), ("cd", "3"), ("df", "2")] if ctx.quick else \
                [("dd", "2"), ("df", "2"), ("cd", "2"), ("cd", "5"), ("cf", "2"), ("cf", "3"), ("cf", "16")]
     with ThreadPoolExecutor(max_workers=4) as ex:
         list(ex.map(lambda v: correspond(ctx, f"K-C08[{v[0]},cacheRows={v[1]}]", cases, [exe, v[0], v[1]], [drv]), variants))
+    # HMG working-set selection (stateful: the last working set survives the flips of shrink() until reset()) is not
+    # modelled: the same histories with `solve hmg`, implementation alone, every clause checked by the oracle after
+    # every step / shrink / unshrink of the real solver.  dd without shrinking and cd with a 2-row cache keep
+    # sqr(active) >= getMaxCacheSize(), i.e. the genuine HMG branch instead of its small-problem LibSVM fallback.
+    hmg = []
+    for c in cases:
+        if c[0].startswith("new svm") and any(o.startswith("solve") for o in c):
+            hmg.append([re.sub(r"^solve (mvp|libsvm) ", "solve hmg ", o) for o in c] +
+                       [f"solve hmg {tok(2.0 ** -10)} {300 if ctx.quick else 3000}"])
+    hmg = [c for c in corpus if any(" hmg " in o for o in c)] + hmg[:400 if ctx.quick else 4000]
+    for v in (("dd", "2"), ("cd", "2")):
+        oracle_alone(ctx, f"K-C08[hmg,{v[0]},cacheRows={v[1]}]", hmg, [exe, v[0], v[1]])
+    # the histories the shrinking clause quantifies over must have been reached on the REAL objects (measured by the
+    # harness): shrink() calls whose internal un-shrink re-activated a KKT violator such that the thresholds of the
+    # formerly active variables alone would have removed a different set of variables -- both problem kinds, called
+    # directly and from inside QpSolver::solve
+    reached = ctx.cov.get(f"reached[{variants[0][0]},cacheRows={variants[0][1]}]", {})
+    for key, least in (("unshrink_discriminating_svm", 10), ("unshrink_discriminating_box", 5),
+                       ("unshrink_discriminating_in_solve", 3), ("shrink_after_flag_set", 10), ("shrunk_became_violator", 10)):
+        if reached and reached.get(key, 0) < least:
+            ctx.broken("coverage", f"shrink-history:{key}", f"the generated histories reached {key} only {reached.get(key, 0)} times (< {least})")
     ctx.sample({"theorems": "see obligation_names"})
 
 
@@ -413,6 +754,13 @@ def replay(ctx, rep):
     translate(ctx)
     exe = build(ctx); drv = ctx.driver("drv_c08")
     cmd = list(rep.get("harness_cmd", [exe, "dd"])); cmd[0] = exe
+    if rep.get("oracle_only"):
+        import subprocess
+        p = subprocess.run(cmd, input="\n".join(rep["ops"]) + "\n", capture_output=True, text=True, errors="replace")
+        bad = [l[l.index("!oracle"):][:200] for l in p.stdout.splitlines() if "!oracle" in l]
+        print("\n".join(l[:1500] for l in p.stdout.splitlines()[-4:])); print("stderr:", p.stderr[-2000:])
+        print("OK" if not bad and p.returncode == 0 else f"FAILS (oracle: {bad[:3]}, rc={p.returncode})")
+        return 0 if not bad and p.returncode == 0 else 1
     res = run_case(ctx, cmd, [drv], rep["ops"])
     for a, b in zip(res.impl, res.model):
         print("impl :", a[:1500]); print("model:", b[:1500])
